@@ -22,7 +22,7 @@ import re
 from typing import Any, Dict, List, Optional, Sequence, Set, Tuple
 
 from .grammar import CAP, Grammar, Sym
-from .model import AnchorMissing, Repo, class_methods, dotted, strip_cast
+from .model import AnchorMissing, Repo, class_methods, class_methods_n, dotted, strip_cast
 from .report import Run
 
 
@@ -184,6 +184,27 @@ class Machine:
                 raise Inconclusive("pushes a non-string")
             self.stack.append(v)
             return None
+        # local lists built while rendering: items.append(x), items.reverse(), items.insert(0, x), items.extend(ys)
+        if isinstance(f, ast.Attribute) and isinstance(f.value, ast.Name) and f.value.id in self.env and isinstance(self.env[f.value.id], list):
+            lst = self.env[f.value.id]
+            if f.attr == "append" and len(node.args) == 1:
+                lst.append(self.ev(node.args[0]))
+                return None
+            if f.attr == "reverse" and not node.args:
+                lst.reverse()
+                return None
+            if f.attr == "insert" and len(node.args) == 2:
+                i = self.ev(node.args[0])
+                if isinstance(i, int):
+                    lst.insert(i, self.ev(node.args[1]))
+                    return None
+            if f.attr == "extend" and len(node.args) == 1:
+                v = self.ev(node.args[0])
+                if isinstance(v, (list, tuple)):
+                    lst.extend(v)
+                    return None
+            if f.attr == "pop" and not node.args and lst:
+                return lst.pop()
         if d == "len" and len(node.args) == 1:
             v = self.ev(node.args[0])
             if v == "STACK":
@@ -297,6 +318,15 @@ class Machine:
                         return True
                 elif self.run(st.orelse):
                     return True
+            elif isinstance(st, ast.For) and not st.orelse:
+                # the sequences iterated here have a concrete length for this child shape: unroll
+                seq = self.ev(st.iter)
+                if not isinstance(seq, (list, tuple)):
+                    raise Inconclusive("loop over a non-list")
+                for item in list(seq):
+                    self.bind(st.target, item)
+                    if self.run(st.body):
+                        return True
             elif isinstance(st, ast.Return):
                 if st.value is not None and not (isinstance(st.value, ast.Constant) and st.value.value is None):
                     raise Inconclusive("returns a value")
@@ -354,7 +384,7 @@ def full_expansions(g: Grammar, rule: str) -> Dict[Tuple[str, ...], Set[str]]:
 def check_dump(repo: Repo, run: Run, g: Grammar, rule_prefix: str = "C06") -> None:
     mod = repo.mod("celparser")
     cls = mod.cls("DumpAST")
-    methods = class_methods(cls)
+    methods = class_methods_n(cls)  # private helpers shared by the rule methods are expanded in place
     n = 0
     analysed = []
     for rule in g.public_rules():
